@@ -54,6 +54,7 @@ def ingroup(facts, cls, name, countfield, res):
                                        for y in walk(r) if y.get("k") == "DeclRefExpr" and y.get("dk") == "Var")]
         if len(main) != 1:
             raise AnalysisBroken("%s::%s: %d non-empty returns, %d of them from the search (1 / 1 confirmed by reading)" % (cls, name, len(succ), len(main)))
+        lk0 = _Look(facts, fn)
         for r in succ:
             if r is main[0]:
                 continue
@@ -68,13 +69,32 @@ def ingroup(facts, cls, name, countfield, res):
                     break
                 if st.get("k") == "IfStmt" and any(x.get("k") == "ReturnStmt" for x in walk(st)) and not any(x is r for x in walk(st)):
                     conds.append(st["c"][-3] if len(st["c"]) >= 3 else st["c"][0])
-            tests_query = any(y.get("k") == "DeclRefExpr" and y.get("did") == query["did"] for c in conds for y in walk(c))
+            # guards of every enclosing block (early returns before this exit) count as conditions on its path
+            cur_ = r
+            p_ = cur_.get("_p")
+            while p_ is not None:
+                if p_.get("k") == "CompoundStmt":
+                    for st in kids(p_):
+                        if st is cur_:
+                            break
+                        if st.get("k") == "IfStmt" and any(x.get("k") == "ReturnStmt" for x in walk(st)):
+                            conds.append(st["c"][-3] if len(st["c"]) >= 3 else st["c"][0])
+                cur_ = p_
+                p_ = p_.get("_p")
+            tests_query = any(y.get("k") == "DeclRefExpr" and y.get("did") == query["did"] for c in conds for y in walk(c)) or \
+                any(re.search(r"(^|[^\w])q([^\w]|$)", lk0.desc(y)) for c in conds for y in walk(c) if y.get("k") == "DeclRefExpr" and y.get("dk") == "Var")
             res.instance(R, "%s::%s extra positive exit@%d" % (cls, name, r["l"][1]), facts.loc(r), "conditions on its path mention the query: %s" % tests_query)
             if not tests_query:
                 res.violation(R, f, fn["qname"], "untested-positive-exit@%d" % r["l"][1], r["l"][1],
                               "a position is returned (`%s`) on a path where the queried index was never compared with anything: indices outside the group, or absent from it, are reported as found" % facts.ntext(r)[:90])
             else:
-                raise AnalysisBroken("%s::%s: an additional positive exit at line %d tests the query in a way the rule does not model; re-confirm C16.1 by reading" % (cls, name, r["l"][1]))
+                verdict = arithmetic_exit(facts, cls, fn, fm, r, query, countfield, by_parent=("Parent" in name))
+                if verdict is None:
+                    raise AnalysisBroken("%s::%s: an additional positive exit at line %d tests the query in a way the rule does not model; re-confirm C16.1 by reading" % (cls, name, r["l"][1]))
+                ok, text = verdict
+                res.instance(R, "%s::%s arithmetic exit@%d" % (cls, name, r["l"][1]), facts.loc(r), text[:200])
+                if not ok:
+                    res.violation(R, f, fn["qname"], "arithmetic-exit@%d" % r["l"][1], r["l"][1], text)
         succ = main
     if len(succ) != 1:
         raise AnalysisBroken("%s::%s: %d non-empty returns (1 confirmed by reading)" % (cls, name, len(succ)))
@@ -149,6 +169,166 @@ def ingroup(facts, cls, name, countfield, res):
         norm = lambda t: re.sub(r"\b\w*[Hh]eader\b", "HDR", t)
         if norm(gkey) != norm(lkey):
             res.violation(R, f, fn["qname"], "key-agreement", lam["l"][1], "the search orders elements by `%s` but the result is verified with `%s`" % (lkey, gkey))
+
+
+def arithmetic_exit(facts, cls, fn, fm, ret, query, countfield, by_parent):
+    """A positive exit that computes the position instead of verifying the stored key (fast path of a group without holes).
+    The guards on its path and the returned position are translated into integer arithmetic over S (first index), E (last
+    index), N (count), Q (query), B = 2^Dim; a group whose keys are strictly increasing (C07) with E - S + 1 == N holds exactly
+    the keys S .. E, so key(i) = S + i.  The obligation - the position is inside the group and the key there is the query
+    (resp. has the query as parent: Q*B <= key <= Q*B + B - 1) - is then a quantifier-free formula of linear integer arithmetic
+    with small constants; it is decided by enumerating a box of values that contains a counter-model whenever one exists.
+    Returns (proved?, explanation) or None when the path cannot be translated."""
+    import sympy
+    import itertools
+    S, E, N, Q, B = sympy.symbols("S E N Q B", integer=True)
+    lk = _Look(facts, fn)
+
+    class Untranslatable(Exception):
+        pass
+
+    def tr(n, bind=None, depth=0):
+        n = strip(n)
+        bind = bind or {}
+        if n is None or depth > 14:
+            raise Untranslatable()
+        k = n.get("k")
+        if k == "IntegerLiteral":
+            return sympy.Integer(n["val"])
+        if k in ("CXXStaticCastExpr", "CStyleCastExpr", "CXXFunctionalCastExpr", "CXXConstructExpr", "CXXTemporaryObjectExpr", "CXXUnresolvedConstructExpr", "MaterializeTemporaryExpr") and len(kids(n)) == 1:
+            return tr(kids(n)[0], bind, depth + 1)
+        if k == "DeclRefExpr":
+            if n.get("did") in bind:
+                return bind[n["did"]]
+            if n.get("did") == query["did"]:
+                return Q
+            i = lk.local_init(n)
+            if i is not None:
+                return tr(i, bind, depth + 1)
+            raise Untranslatable()
+        if k in ("MemberExpr", "CXXDependentScopeMemberExpr"):
+            nm = n.get("name")
+            if nm == "startingSpaceIndex":
+                return S
+            if nm == "endingSpaceIndex":
+                return E
+            if nm == countfield:
+                return N
+            raise Untranslatable()
+        if k == "UnaryOperator" and n.get("op") == "!":
+            return sympy.Not(tr(kids(n)[0], bind, depth + 1))
+        if k == "UnaryOperator" and n.get("op") == "-":
+            return -tr(kids(n)[0], bind, depth + 1)
+        if k == "BinaryOperator":
+            a, b = tr(kids(n)[0], bind, depth + 1), tr(kids(n)[1], bind, depth + 1)
+            op = n.get("op")
+            if op in ("+", "-", "*"):
+                return {"+": a + b, "-": a - b, "*": a * b}[op]
+            if op in ("<", "<=", ">", ">=", "==", "!="):
+                return {"<": sympy.Lt, "<=": sympy.Le, ">": sympy.Gt, ">=": sympy.Ge, "==": sympy.Eq, "!=": sympy.Ne}[op](a, b)
+            if op == "&&":
+                return sympy.And(a, b)
+            if op == "||":
+                return sympy.Or(a, b)
+            raise Untranslatable()
+        if k in ("CallExpr", "CXXMemberCallExpr"):
+            nm = tbf.callee_name(n)
+            args = tbf.call_args(n)
+            if nm == "getChildIndexFromParent" and len(args) == 2:
+                return tr(args[0], bind, depth + 1) * B + tr(args[1], bind, depth + 1)       # child = parent * 2^Dim + code (C11.4)
+            if nm == "getParentIndex" and len(args) == 1:
+                return sympy.floor(tr(args[0], bind, depth + 1) / B)
+            if nm == "getNbChildrenPerCell" and not args:
+                return B
+            if nm in ("max", "min") and len(args) == 2:
+                return (sympy.Max if nm == "max" else sympy.Min)(tr(args[0], bind, depth + 1), tr(args[1], bind, depth + 1))
+            if nm in ("optional", "make_optional") and len(args) == 1:
+                return tr(args[0], bind, depth + 1)
+            cands = [g for g in facts.methods_of(cls) if g["name"] == nm and tbf.body(g) is not None and len(g["params"]) == len(args)]
+            if len(cands) == 1:
+                st = kids(tbf.body(cands[0]))
+                if len(st) == 1 and st[0].get("k") == "ReturnStmt" and kids(st[0]):
+                    b2 = {}
+                    for p_, a in zip(cands[0]["params"], args):
+                        a0 = strip(a)
+                        # a header object handed to a helper: its members are read by name
+                        try:
+                            b2[p_["did"]] = tr(a, bind, depth + 1)
+                        except Untranslatable:
+                            b2[p_["did"]] = None
+                    return tr(kids(st[0])[0], {k_: v_ for k_, v_ in b2.items() if v_ is not None}, depth + 1)
+            raise Untranslatable()
+        raise Untranslatable()
+
+    try:
+        pathc = []
+        cur = ret
+        p = cur.get("_p")
+        while p is not None:
+            if p.get("k") == "IfStmt":
+                cond = p["c"][0]
+                if len(p["c"]) > 1 and p["c"][1] is not None and (p["c"][1] is cur or any(y is cur for y in walk(p["c"][1]))):
+                    pathc.append(tr(cond))
+                elif len(p["c"]) > 2 and p["c"][2] is not None:
+                    pathc.append(sympy.Not(tr(cond)))
+            if p.get("k") == "CompoundStmt":
+                for st in kids(p):
+                    if st is cur:
+                        break
+                    if st.get("k") == "IfStmt" and (len(st["c"]) < 3 or st["c"][2] is None):
+                        last = st["c"][1]
+                        while last is not None and last.get("k") == "CompoundStmt" and kids(last):
+                            last = kids(last)[-1]
+                        if last is not None and last.get("k") == "ReturnStmt":
+                            pathc.append(sympy.Not(tr(st["c"][0])))
+            cur = p
+            p = p.get("_p")
+        pos = tr(kids(ret)[0])
+    except Untranslatable:
+        return None
+    pc = sympy.And(*pathc) if pathc else sympy.true
+    contiguous = sympy.Eq(E - S + 1, N)
+    key = S + pos
+    if by_parent:
+        goal = sympy.And(pos >= 0, pos <= N - 1, Q * B <= key, key <= Q * B + B - 1)
+    else:
+        goal = sympy.And(pos >= 0, pos <= N - 1, sympy.Eq(key, Q))
+    # does the path establish contiguity at all?  (a counter-model with N != E - S + 1 means key(i) = S + i is not known)
+    def holds(expr, env):
+        v = expr.subs(env)
+        return bool(v)
+    cm = None
+    for b_ in (2, 4):
+        for s_, e_ in itertools.product(range(0, 13), repeat=2):
+            if e_ < s_:
+                continue
+            for n_ in set((e_ - s_ + 1, max(1, e_ - s_), 1)):
+                if n_ > e_ - s_ + 1 or n_ < 1:
+                    continue
+                for q_ in range(0, 13):
+                    env = {S: s_, E: e_, N: n_, Q: q_, B: b_}
+                    if not holds(pc, env):
+                        continue
+                    if n_ != e_ - s_ + 1:
+                        return None        # the path is reachable for a group with holes: key(i) = S + i is not known, nothing can be said
+                    if not holds(goal, env):
+                        cm = env
+                        break
+                if cm:
+                    break
+            if cm:
+                break
+        if cm:
+            break
+    what = "its parent is the queried index" if by_parent else "it is the queried index"
+    if cm is None:
+        return True, "position `%s` returned under `%s`: for a group without holes (key(i) = first + i) the position is inside the group and the key there is such that %s - proven for all values" % (pos, pc, what)
+    kv = cm[S] + pos.subs(cm)
+    return False, ("the fast path returns position %s for the query %s in a hole-free group holding the indices %s..%s%s, but %s: its guard `%s` does not exclude this case - "
+                   "an index that is absent from the group is reported as found" % (
+                       pos.subs(cm), cm[Q], cm[S], cm[E], (" (2^Dim = %s)" % cm[B]) if by_parent else "",
+                       ("that position is outside the group" if not (0 <= pos.subs(cm) <= cm[N] - 1) else
+                        ("the cell there, %s, has parent %s" % (kv, kv // cm[B]) if by_parent else "the cell there is %s" % kv)), pc))
 
 
 # --------------------------------------------------------------------------- C16.2 (structural)
